@@ -7,6 +7,7 @@ import (
 	"strings"
 	"time"
 
+	"github.com/gammazero/nexus/v3/client"
 	"github.com/gammazero/nexus/v3/router"
 	"github.com/gammazero/nexus/v3/wamp"
 
@@ -34,7 +35,7 @@ func init() {
 			"GOMAXPROCS in {1,2,4,8}; each sender issues 20-60 numbered messages without waiting; offline checker over the receive logs: OR1 events per (publisher, topic, subscription) increasing, " +
 			"OR2 invocations per (caller, callee) increasing, OR3 progressive results per call increasing and before the final reply, OR4/OR5 SUBSCRIBED/REGISTERED brackets; " +
 			"non-trivial = burst in which >=2 senders were concurrently active towards the same receiver (measured from interleaved arrivals)",
-		Required: []string{"OR1", "OR2", "OR3", "OR4", "OR5", "OR6", "OR7"},
+		Required: []string{"OR1", "OR2", "OR3", "OR4", "OR5", "OR6", "OR7", "OR8"},
 		Level:    "exploration",
 	})
 }
@@ -269,6 +270,81 @@ func runC08(c *Case) {
 		c.Hit("OR7")
 		if got := strings.Join(slowSeq, " "); got != "progress1 progress2 progress3 final" {
 			c.Fail("OR7", "progressive results to a blocked caller lost or reordered", "a caller with a 1-message queue stopped reading for 5 s (less than the dealer's retry period) while the callee yielded progress 1,2,3 and the final result; after resuming it received: [%s]", got)
+		}
+		// ---- a subscriber that is the project's client library taking its events on a channel
+		// (client.SubscribeChan, channel capacity 0-2) with a reader that falls behind: it stalls for
+		// 0 .. 3 x the response timeout between reads while two publishers' numbered events are pending.
+		// What the application reads from the channel must be in publication order per publisher.
+		{
+			tmoC := pick(r, []time.Duration{100 * time.Millisecond, time.Second, 5 * time.Second})
+			chCap := r.IntN(3)
+			nEv := 6 + r.IntN(11)
+			stalls := make([]time.Duration, 2*nEv)
+			for i := range stalls {
+				if chance(r, 45) {
+					stalls[i] = pick(r, []time.Duration{tmoC / 20, tmoC/10 + time.Millisecond, tmoC / 5, tmoC / 2, tmoC + time.Millisecond, 3 * tmoC})
+				}
+			}
+			cli, cerr := client.ConnectLocal(w.Router, client.Config{Realm: "realm1", ResponseTimeout: tmoC, LocalQueueSize: 512, Logger: w.Log})
+			if cerr != nil {
+				c.Fail("HARNESS", "client", "client.ConnectLocal failed: %v", cerr)
+			} else {
+				events := make(chan *wamp.Event, chCap)
+				if err := cli.SubscribeChan("chan.topic", events, nil); err != nil {
+					c.Fail("HARNESS", "client", "client.SubscribeChan failed: %v", err)
+				}
+				type got struct{ pub, n int }
+				var seq []got
+				done := make(chan struct{})
+				go func() {
+					defer close(done)
+					for i := 0; i < 2*nEv; i++ {
+						if stalls[i] > 0 {
+							time.Sleep(stalls[i])
+						}
+						select {
+						case ev := <-events:
+							if len(ev.Arguments) >= 3 {
+								pi, _ := canon.AsID(ev.Arguments[1])
+								k, _ := canon.AsID(ev.Arguments[2])
+								seq = append(seq, got{int(pi), int(k)})
+							}
+						case <-time.After(20 * tmoC):
+							return
+						}
+					}
+				}()
+				for i := 1; i <= nEv; i++ {
+					for pi := 0; pi < 2; pi++ {
+						pubs[pi].Send(&wamp.Publish{Request: wamp.ID(700000 + i), Options: wamp.Dict{}, Topic: "chan.topic", Arguments: wamp.List{"chan", pi, i}})
+					}
+					if i == nEv/2 {
+						w.Wait()
+						w.Advance(tmoC / 4)
+					}
+				}
+				<-done
+				w.Wait()
+				last := map[int]int{}
+				var txt []string
+				for _, g := range seq {
+					txt = append(txt, fmt.Sprintf("P%d:%d", g.pub, g.n))
+				}
+				for _, g := range seq {
+					c.Hit("OR8")
+					if g.n <= last[g.pub] {
+						c.Fail("OR8", "client.SubscribeChan hands events to the application out of publication order", "publisher P%d's event %d read from the channel after its event %d (channel capacity %d, response timeout %v, reader stalls %v); read in this order: %s", g.pub, g.n, last[g.pub], chCap, tmoC, stalls, strings.Join(txt, " "))
+						break
+					}
+					last[g.pub] = g.n
+				}
+				c.Add("events_read_from_a_client_channel", float64(len(seq)))
+				if len(seq) == 0 {
+					c.Fail("HARNESS", "client", "the SubscribeChan subscriber read no event at all")
+				}
+				cli.Close()
+				w.Wait()
+			}
 		}
 		// ---- offline checks
 		all := append(append(append(append([]*sim.Puppet{}, pubs...), subs...), callers...), callees...)
